@@ -24,4 +24,4 @@ def _nontrivial(c):
 
 
 mach.install(globals(), "C06", ("EvResume", "EvPause", "EvStep", "EvBefore"), ("C06:",), PROFILES, n_quick=300,
-             n_thorough=5000, nontrivial=_nontrivial, level="proof")
+             n_thorough=25000, nontrivial=_nontrivial, level="proof")
